@@ -63,3 +63,42 @@ def Col.run (m : Mode) : Col → List Seq.Op → Res (List (Seq.Out Nat) × Col)
 def Win.Disjoint (a b : Win) : Prop := a.off + a.len ≤ b.off ∨ b.off + b.len ≤ a.off
 
 end Toodee
+
+namespace Toodee
+
+def optPositions : Option Win → List Nat
+  | some w => w.positions
+  | none => []
+
+def optLen : Option Win → Nat
+  | some w => w.len
+  | none => 0
+
+/-- the cells a `FlattenExact` cursor still has to visit: the partly consumed front row, the `k` untouched rows, the
+    partly consumed back row -/
+def Flat.abs (s : Flat) (k : Nat) : List Nat :=
+  optPositions s.front ++ ((s.iter.abs k).map Win.positions).flatten ++ optPositions s.back
+
+/-- cursor invariant of `Cells`/`CellsMut` -/
+structure Flat.WF (s : Flat) (k n : Nat) : Prop where
+  rows : s.iter.WF k n
+  front : ∀ w, s.front = some w → w.off + w.len ≤ n
+  back : ∀ w, s.back = some w → w.off + w.len ≤ n
+  total : optLen s.front + k * s.iter.cols + optLen s.back ≤ n
+  cols_zero : s.iter.cols = 0 → optLen s.front = 0 ∧ optLen s.back = 0
+
+def Flat.step (m : Mode) (fuel : Nat) (s : Flat) : Seq.Op → Res (Seq.Out Nat × Flat)
+  | .next => do let (x, s') ← s.next fuel; pure (.item x, s')
+  | .nextBack => do let (x, s') ← s.nextBack m fuel; pure (.item x, s')
+  | .nth n => do let (x, s') ← s.nth m n; pure (.item x, s')
+  | .nthBack n => do let (x, s') ← s.nthBack m n; pure (.item x, s')
+  | .len => do let k ← s.sizeHint m; pure (.num k, s)
+
+def Flat.run (m : Mode) (fuel : Nat) : Flat → List Seq.Op → Res (List (Seq.Out Nat) × Flat)
+  | s, [] => pure ([], s)
+  | s, o :: os => do
+    let (x, s') ← s.step m fuel o
+    let (xs, s'') ← Flat.run m fuel s' os
+    pure (x :: xs, s'')
+
+end Toodee
